@@ -1,6 +1,7 @@
 # -*- coding: utf-8 -*-
 """C06  Tolerant mode: total, equals strict on valid input, keeps pre-error content."""
 import ast
+from .. import symex
 from ..core import (AnalysisError, short, unparse, iter_own, call_name, call_recv, kwarg,
                     is_self_attr, atomic_facts, parents, enclosing_stmt, enclosing_func)
 from .. import affine
@@ -17,7 +18,7 @@ READER_MOVES = ('next_token', 'move_to_token', 'move_past_token', 'move_to_pos_c
 
 
 def _optional_recovery_attributes(ctx, repo):
-    from .. import symex
+    pass
     em = repo.mod('pylatexenc.latexnodes._exctypes')
     groups = {}          # attribute -> (class, set of attributes set by the same __init__)
     for cn, c in em.classes.items():
@@ -148,7 +149,7 @@ def _block_of(st):
 
 def _retry_progress(ctx, repo):
     """typestate over the reader position along each structural path that ends in a retry request"""
-    from .. import symex
+    pass
     em = repo.mod(EXPR)
     n = 0
     for qual, f in sorted(em.functions.items()):
@@ -366,7 +367,7 @@ def run(ctx):
     pk = tr.methods('LatexTokenReader').get('peek_token')
     if pk is None:
         raise AnalysisError('anchor vanished: LatexTokenReader.peek_token')
-    from .. import symex
+    pass
     why = None
     hs = [h for t_ in iter_own(pk) if isinstance(t_, ast.Try) for h in t_.handlers
           if h.type is not None and 'LatexWalkerTokenParseError' in unparse(h.type)]
@@ -502,6 +503,46 @@ def run(ctx):
     c05.stray_closers(c05._Sub(ctx, 'R06i'), 'R06i', repo)
     ctx.assume('termination is decided only through token-level progress (R06b, C11 R11a); implicit '
                'exceptions only through the crash-construct rules')
+    # ---- R06j (C01 R01f): whitespace read in front of a token is part of the content parsed
+    # before an error at that token
+    ctx.rule('R06j', 'the whitespace in front of every token is turned into a node or handed on exactly once on '
+                     'every path of process_one_token, also on the paths that end in the error for a stray '
+                     'closing token: content before the first error is kept (C01 R01f)', 1)
+    from . import c01 as _c01
+    from .. import core as _core
+    _c01.run(_core.Proxy(ctx, 'R06j', ('R01f',)))
+
+    # ---- R06k: attributes attached to foreign objects on some paths only are read with a default
+    ctx.rule('R06k', 'an attribute that is attached to an object of another class from outside (the legacy '
+                     '_legacy_pyltxenc2_* markers on the parsed arguments) is optional: it is read with '
+                     'getattr(obj, name, default), never as obj.name -- after a recovered error the carrier is '
+                     'None or was not produced by the code that attaches the marker', 2)
+    attached = {}
+    for mod_ in repo.modules.values():
+        for n_ in ast.walk(mod_.tree):
+            if isinstance(n_, ast.Attribute) and isinstance(n_.ctx, ast.Store) and n_.attr.startswith('_legacy_') \
+                    and not (isinstance(n_.value, ast.Name) and n_.value.id == 'self'):
+                attached.setdefault(n_.attr, []).append((mod_, n_))
+    n_opt = 0
+    for mod_ in sorted(repo.modules.values(), key=lambda m_: m_.name):
+        for n_ in ast.walk(mod_.tree):
+            if isinstance(n_, ast.Attribute) and isinstance(n_.ctx, ast.Load) and n_.attr in attached:
+                n_opt += 1
+                ctx.refuted('R06k', mod_, enclosing_stmt(n_) or n_,
+                            '%s is read as a plain attribute (%s) although it is attached from outside on some '
+                            'objects only: when the arguments could not be parsed (tolerant recovery) the carrier '
+                            'is None or carries no marker and AttributeError escapes the tolerant parse'
+                            % (n_.attr, short(n_, 80)), construct='read of ' + n_.attr)
+            if isinstance(n_, ast.Call) and isinstance(n_.func, ast.Name) and n_.func.id == 'getattr' and \
+                    len(n_.args) >= 2 and isinstance(n_.args[1], ast.Constant) and n_.args[1].value in attached:
+                n_opt += 1
+                ctx.decide('R06k', len(n_.args) == 3, mod_, n_, 'read with a default: ' + short(n_, 80),
+                           'getattr(%s, %r) without a default raises AttributeError when the marker was not attached'
+                           % (short(n_.args[0], 40), n_.args[1].value), construct='read of ' + n_.args[1].value)
+    if not attached:
+        ctx.unknown('R06k', repo.mod('pylatexenc.macrospec._argumentsparser'), None,
+                    'no externally attached marker attribute found', construct='attached attributes')
+
     return 'other', (
         'Exception-escape analysis in the tolerant configuration (the tolerance check and the '
         'parse_content context manager suppress the parse-error family), the recovery hand-over '
